@@ -137,6 +137,7 @@ type Sim struct {
 	tickers      []*ticker
 	rootChildren int
 	sameTurns    int
+	timerFires   int
 	lastSite     string
 	onces        map[*sync.Once]*onceState
 	timerOf      map[*time.Timer]time.Time
@@ -570,6 +571,16 @@ func (s *Sim) Run() Outcome {
 			// the fake clock to the earliest one and look again
 			if d, ok := s.nextTimer(); ok && advN < AutoAdvanceMax {
 				advN++
+				// a ticker that keeps the run from resting is served with growing
+				// strides (a process that was not scheduled for a while misses ticks
+				// the same way): code that polls for a deadline minutes away is reached
+				if p := s.tickerPeriod(d); p > 0 && advN > 8 {
+					k := advN - 8
+					if k > 12 {
+						k = 12
+					}
+					d += p * time.Duration(int64(1)<<uint(k))
+				}
 				time.Sleep(d)
 				s.SimTime += d
 				s.AutoAdvances++
@@ -579,6 +590,18 @@ func (s *Sim) Run() Outcome {
 		}
 		if s.Step >= s.MaxStep {
 			return StepCap
+		}
+		// A pending timer of the library may also expire while goroutines are
+		// runnable (a timer callback that starts in the middle of somebody's Send):
+		// now and then the scheduler lets the earliest one fire first. Drawn from
+		// the schedule tape, and only while a library timer is pending, so runs
+		// without library timers are not perturbed.
+		if d, ok := s.nextTimer(); ok && s.timerFires < TimerFiresMax && s.Sched.Chance("firetimer", 0.04) {
+			s.timerFires++
+			time.Sleep(d)
+			s.SimTime += d
+			s.AutoAdvances++
+			continue
 		}
 		if len(en) > s.MaxEnabled {
 			s.MaxEnabled = len(en)
@@ -1018,3 +1041,21 @@ func OnceValues[T1, T2 any](f func() (T1, T2)) func() (T1, T2) {
 // FairAfter: consecutive turns of one goroutine at one site, with others
 // enabled, after which the scheduler passes the token on.
 var FairAfter = 200
+
+// TimerFiresMax bounds how often per run a library timer is made to expire
+// while goroutines are runnable.
+var TimerFiresMax = 6
+
+// tickerPeriod returns the period of the ticker whose next tick is d away (0: the
+// earliest timer is not a ticker).
+func (s *Sim) tickerPeriod(d time.Duration) time.Duration {
+	now := time.Now()
+	s.mu.Lock()
+	defer s.mu.Unlock()
+	for _, tk := range s.tickers {
+		if tk.next.Sub(now) == d {
+			return tk.period
+		}
+	}
+	return 0
+}
